@@ -58,15 +58,22 @@ def handleProg : Handler := fun input impl =>
         -- three-way: the implementation's diagnostics judged by Lua's scoping rules directly — a diagnostic whose
         -- range starts at an identifier that the resolver binds to a local declaration is a use inside that binding's scope
         let spec := Spec.resolve chunk.block
+        -- the use a diagnostic is about: for a diagnostic the model also produces, the root token the model's gate looked at;
+        -- otherwise the start of its range — except where the range is an *argument* of the call (type problems, deprecated
+        -- parameters), whose first token says nothing about the called name
+        let boundAt := fun (t : Nat) => match spec.occs.find? (fun o => o.tok == t && o.kind != .target) with
+          | some o => o.binding.map fun (dtok, _) => (o.name, dtok)
+          | none => none
         let inside := idiags.filterMap fun d => match d with
           | .list [c, .list [a, _], m, _] =>
-            match a.asNat? with
-            | some t =>
-              match spec.occs.find? (fun o => o.tok == t && o.kind != .target) with
-              | some o => match o.binding with
-                | some (dtok, _) => some s!"[C07] inside: {c} `{m.asString?.getD ""}` at token {t}, where `{o.name}` denotes the script's own variable declared at token {dtok}"
-                | none => none
-              | none => none
+            let msg := m.asString?.getD ""
+            let key := implKey d
+            let root : Option Nat := match mdiags.find? (fun g => some (showPDiag g) == key) with
+              | some g => some g.root
+              | none =>
+                if msg.startsWith "use of standard_library function" || msg == "this parameter is deprecated" then none else a.asNat?
+            match root.bind boundAt with
+            | some (name, dtok) => some s!"[C07] inside: {c} `{msg}` for a use rooted at token {root.getD 0}, where `{name}` denotes the script's own variable declared at token {dtok}"
             | none => none
           | _ => none
         let tags := (mdiags.map fun g => kindTag g.kind).eraseDups ++
